@@ -47,6 +47,8 @@ class Controller:
         self.rx_buf = {}          # fragments of a write under way, per zone
         self.dispatch_errors = []
         self.on_write = None      # called with the zone when a complete write has replaced its schedule
+        self.tcs = None           # when set: who holds the system's transfer lock is noted at every fragment exchange
+        self.lock_at_call = []    # (zone of the 0404 exchange, tcs.zone_lock_idx at that moment)
 
     def new_schedule(self, z, bump=True, days=None):
         days = days or gen_schedule(self.rng, False, 3)
@@ -66,6 +68,8 @@ class Controller:
             n = len(self.calls)
             self.calls.append((zone, cmd.code, cmd.payload))
             self.verbs.append(cmd.verb)
+            if zone is not None and self.tcs is not None:
+                self.lock_at_call.append((zone, self.tcs.zone_lock_idx))
         act = self.plan.get(n)
         waits = bool(kw.get("wait_for_reply"))            # as the protocol FSM reads it: None / False = the echo is enough
         if act == "raise":
@@ -166,6 +170,7 @@ def episode(scn):
         ctl = Controller(S, random.Random(scn["seed"]), 3)
         ctl.plan = {int(k): (tuple(v) if isinstance(v, list) else v) for k, v in scn["plan"].items()}
         gwy.async_send_cmd = ctl.send
+        ctl.tcs = gwy.tcs
         if scn.get("dispatch"):
             ctl.gwy = gwy
         zones = {int(z.idx, 16): z for z in gwy.tcs.zones}
@@ -247,6 +252,11 @@ def episode(scn):
                     results.append(("refused:" + type(err).__name__, None))
             elif step[0] == "together":
                 results.extend(await asyncio.gather(*(fetch(z, step[2]) for z in step[1])))
+            elif step[0] == "mixed":           # fetches and writes of several zones at once, each with its own patience, started a moment apart
+                async def later(k, op, z, t):
+                    await asyncio.sleep(k / 256)
+                    return await (write(z, t) if op == "set" else fetch(z, t))
+                results.extend(await asyncio.gather(*(later(k, op, z, t) for k, (op, z, t) in enumerate(step[1]))))
             obs.setdefault("lock_after", []).append(gwy.tcs.zone_lock_idx)
             cache_obs(n_before, cached_ok)
         obs["results"] = [(k, None) for k, _ in results]
@@ -254,6 +264,7 @@ def episode(scn):
         obs["initial_sched"] = versions_seen[0][0]
         obs["nfrags_written"] = [len(S.full_sched_to_fragz({"zone_idx": "00", "schedule": d})) for d in written_days]
         obs["calls"] = len(ctl.calls)
+        obs["lock_at_call"] = list(ctl.lock_at_call)
         obs["verbs"] = list(ctl.verbs)
         obs["codes"] = [c[1] for c in ctl.calls]
         obs["dispatch_errors"] = ctl.dispatch_errors[:5]
@@ -479,6 +490,11 @@ def run(ctx: Ctx) -> None:
         scns.append({"seed": seed, "plan": {}, "steps": [("together", [0, 1, 2], 400)], "n_aw": n_aw, "pos": None, "kind": "concurrent"})
         scns.append({"seed": seed, "plan": {"1": "raise"}, "steps": [("together", [0, 1], 400), ("fetch", 2, 400)], "n_aw": n_aw, "pos": 1, "kind": "concurrent+raise"})
         scns.append({"seed": seed, "plan": {"2": "hang"}, "steps": [("together", [0, 1], 20), ("fetch", 2, 400)], "n_aw": n_aw, "pos": 2, "kind": "concurrent+hang"})
+        # one zone's transfer under way, a second zone's queued behind it and GIVEN UP by its caller while still waiting for the lock, a third zone's
+        # waiting too: the transfers that remain run one after the other, each holding the lock for as long as it talks to the controller
+        for ops in ([("set", 0, 400), ("set", 1, 0.02), ("fetch", 2, 400)], [("fetch", 0, 400), ("fetch", 1, 0.02), ("set", 2, 400)],
+                    [("set", 0, 400), ("fetch", 1, 0.03), ("set", 2, 400)], [("fetch", 0, 400), ("set", 1, 0.03), ("fetch", 2, 400)]):
+            scns.append({"seed": seed, "plan": {}, "steps": [("mixed", ops)] + PROBES, "dispatch": True, "n_aw": n_aw, "pos": None, "kind": "concurrent+waiter-gives-up"})
     # WRITES: zone 0 fetches, then writes a new schedule (every reply is also heard by all entities, as on the air), with one fault at each of the
     # write's exchanges in turn (or none); then another zone's schedule changes and both zones are fetched, undisturbed
     for seed in seeds:
@@ -523,7 +539,8 @@ def run(ctx: Ctx) -> None:
             ctx.violation("mixed-or-wrong-schedule", "a fetch returned a schedule that the controller never had for that zone", case, "fault-sequence")
         fetches = []          # the step each result belongs to
         for st in s["steps"]:
-            fetches += [st] if st[0] in ("fetch", "probe", "set", "set-invalid") else [("fetch", z, st[2]) for z in st[1]] if st[0] == "together" else []
+            fetches += ([st] if st[0] in ("fetch", "probe", "set", "set-invalid") else [("fetch", z, st[2]) for z in st[1]] if st[0] == "together"
+                        else [(op, z, t) for op, z, t in st[1]] if st[0] == "mixed" else [])
         for st, r in zip(fetches, res):
             if st[0] == "probe" and r == "stale-schedule":
                 ctx.violation("probe-returns-stale-schedule", "an undisturbed, forced fetch returns an earlier version of the zone's schedule, not the controller's current one", case, "fault-sequence")
@@ -532,6 +549,16 @@ def run(ctx: Ctx) -> None:
                 ctx.violation(f"probe-transfer-fails:{'same' if st[1] == 0 else 'other'}-zone", f"after a disturbed transfer or a change on the controller, an undisturbed transfer of {which} does not complete", case, "fault-sequence")
         if s["kind"] in ("change-between", "shrink-between", "one-fragment") and res[0] != "completed":
             ctx.violation("undisturbed-transfer-fails", "an undisturbed first transfer does not return the controller's schedule", case, "fault-sequence")
+        # whoever talks to the controller about a zone's schedule holds the system's transfer lock FOR THAT ZONE at that moment
+        wrong = [(z, held) for z, held in o.get("lock_at_call", []) if held != f"{z:02X}"]
+        if wrong:
+            ctx.violation("fragment-exchanged-without-the-lock", f"a fragment of zone {wrong[0][0]:02X} was exchanged while the transfer lock was held by {wrong[0][1]!r}",
+                          {**case, "exchanges_without_the_lock": wrong[:6]}, "fault-sequence")
+        if s["kind"] == "concurrent+waiter-gives-up":
+            ops = s["steps"][0][1]
+            for (op, z, t), r in zip(ops, res):
+                if t >= 100 and r not in ("completed", "written"):
+                    ctx.violation("transfer-disturbed-by-a-waiter-that-gave-up", f"the {op} of zone {z:02X} ended with {r} although only ANOTHER zone's caller gave up", case, "fault-sequence")
         if s["kind"] == "concurrent" and any(r != "completed" for r in res):
             ctx.violation("concurrent-transfers-fail", "undisturbed concurrent transfers of several zones do not all complete", case, "fault-sequence")
         # model: only the single-fault, sequential episodes (fault kinds raise/hang map to Raises/Cancelled)
